@@ -667,10 +667,10 @@ def rowNz : Nat → List Rat → List (Nat × Rat)
   | _, [] => []
   | j, v :: t => if v = 0 then rowNz (j + 1) t else (j, v) :: rowNz (j + 1) t
 
-/-- `indptr` of the rows, starting at offset `s`. -/
-def indptrFrom : Nat → Mat → List Nat
-  | s, [] => [s]
-  | s, r :: t => s :: indptrFrom (s + (rowNz 0 r).length) t
+/-- `indptr` of the rows after its first entry `s`: the running count of stored entries. -/
+def indptrTail : Nat → Mat → List Nat
+  | _, [] => []
+  | s, r :: t => (s + (rowNz 0 r).length) :: indptrTail (s + (rowNz 0 r).length) t
 
 /-- The dataset and attributes of a sparse block. -/
 structure CsrFile where
@@ -684,7 +684,7 @@ structure CsrFile where
     explicit zero, no duplicate), then the four pieces written to the file. -/
 def writeSparse (nrows ncols : Nat) (m : Mat) : CsrFile :=
   let ents := (m.map (rowNz 0)).flatten
-  { data := ents.map (·.2), indices := ents.map (·.1), indptr := indptrFrom 0 m,
+  { data := ents.map (·.2), indices := ents.map (·.1), indptr := 0 :: indptrTail 0 m,
     shape := (nrows, ncols) }
 
 /-- The coefficient of column `j` in a list of stored entries (duplicates are summed, as SciPy
@@ -697,14 +697,16 @@ def scatterFrom (ents : List (Nat × Rat)) : Nat → Nat → List Rat
   | _, 0 => []
   | k, n + 1 => entryAt k ents :: scatterFrom ents (k + 1) n
 
-/-- The rows delimited by consecutive `indptr` values. -/
-def csrRows (ncols : Nat) (ents : List (Nat × Rat)) : List Nat → Mat
-  | a :: b :: t => scatterFrom ((ents.drop a).take (b - a)) 0 ncols :: csrRows ncols ents (b :: t)
-  | _ => []
+/-- The rows delimited by consecutive `indptr` values (`a` is the previous value). -/
+def csrRows (ncols : Nat) (ents : List (Nat × Rat)) : Nat → List Nat → Mat
+  | _, [] => []
+  | a, b :: t => scatterFrom ((ents.drop a).take (b - a)) 0 ncols :: csrRows ncols ents b t
 
 /-- `csr_array((data, indices, indptr), shape)` densified. -/
 def readSparse (f : CsrFile) : Mat :=
-  csrRows f.shape.2 (f.indices.zip f.data) f.indptr
+  match f.indptr with
+  | [] => []
+  | a :: t => csrRows f.shape.2 (f.indices.zip f.data) a t
 
 /-- Transposition of a matrix with `ncols` columns. -/
 def transposeM (ncols : Nat) (m : Mat) : Mat :=
